@@ -559,20 +559,128 @@ def hTx (e : Env) (s : State) (L : Nat) (classic : Bool) (ck inp : Bytes) : HOut
       let txid := e.hash (p.take (p.length - rest.length))
       { st := txDeliver s txid, fx := [.addTx txid], used := L }
 
-/-- the transactions of a requested block, `tx.Deserialize` one by one from the stream. The model
-    only needs how many bytes they take and whether they parse; it is applied to the bytes that
-    belong to the block (`L` declared), a short block being `need`. -/
-def blockTxLoop (mem : Nat) : Nat → Bytes → Dec Bytes
-  | 0, b => .ok b
-  | k+1, b =>
-    match decTx mem b with
-    | .ok r => blockTxLoop mem k r
-    | .err => .err
-    | .oom => .oom
+/-! ### the requested block: transactions parsed from the stream -/
 
-/-- `handleBlock` (installed by `RequestBlock`). Simplification: the streaming transaction parse
-    is evaluated on the declared `L` bytes once they are all present (a block is delivered whole in
-    the scripts); allocation inside it is the tx decoder's contract. -/
+/-- a read from the connection inside `tx.Deserialize`: more bytes may still come (`need`). -/
+inductive Sd (α : Type)
+  | ok (a : α) (rest : Bytes)
+  | need
+  | err            -- decode error: handleBlock closes the channel and returns the error
+  | panicked       -- makeslice panic, recovered by handleMessage: the channel is NOT closed
+  | oom            -- fatal out of memory
+deriving Repr
+
+def sN (k : Nat) (b : Bytes) : Sd Bytes :=
+  if b.length < k then .need else .ok (b.take k) (b.drop k)
+
+def sVarInt (b : Bytes) : Sd Nat :=
+  match readVarInt b with
+  | .ok v r => .ok v r
+  | .need => .need
+  | .err => .err
+
+def sAlloc (mem n : Nat) : Sd Unit :=
+  if n > maxAlloc then .panicked else if n > mem then .oom else .ok () []
+
+/-- `readScript` from the stream. -/
+def sScript (mem : Nat) (b : Bytes) : Sd Unit :=
+  match sVarInt b with
+  | .need => .need
+  | .err => .err
+  | .panicked => .panicked
+  | .oom => .oom
+  | .ok count r =>
+    if count > maxMessagePayload then .err
+    else match (if count > 512 then sAlloc mem count else .ok () []) with
+      | .need => .need
+      | .err => .err
+      | .panicked => .panicked
+      | .oom => .oom
+      | .ok _ _ =>
+        match sN count r with
+        | .ok _ r' => .ok () r'
+        | _ => .need
+
+def sTxIns (mem : Nat) : Nat → Nat → Bytes → Sd Unit
+  | _, 0, b => .ok () b
+  | 0, _+1, _ => .need
+  | fuel+1, remaining+1, b =>
+    match sN 36 b with
+    | .ok _ r1 =>
+      match sScript mem r1 with
+      | .ok _ r2 =>
+        match sN 4 r2 with
+        | .ok _ r3 => sTxIns mem fuel remaining r3
+        | _ => .need
+      | .need => .need
+      | .err => .err
+      | .panicked => .panicked
+      | .oom => .oom
+    | _ => .need
+
+def sTxOuts (mem : Nat) : Nat → Nat → Bytes → Sd Unit
+  | _, 0, b => .ok () b
+  | 0, _+1, _ => .need
+  | fuel+1, remaining+1, b =>
+    match sN 8 b with
+    | .ok _ r1 =>
+      match sScript mem r1 with
+      | .ok _ r2 => sTxOuts mem fuel remaining r2
+      | .need => .need
+      | .err => .err
+      | .panicked => .panicked
+      | .oom => .oom
+    | _ => .need
+
+/-- `MsgTx.Deserialize` from the stream: the bytes after the transaction, or how it ended. -/
+def sTx (mem : Nat) (b : Bytes) : Sd Unit :=
+  match sN 4 b with
+  | .ok _ r0 =>
+    match sVarInt r0 with
+    | .ok nIn r1 =>
+      if nIn > maxTxInPerMessage then .err else
+      match sAlloc mem (nIn * txInSize) with
+      | .ok _ _ =>
+        match sTxIns mem (r1.length + 1) nIn r1 with
+        | .ok _ r2 =>
+          match sVarInt r2 with
+          | .ok nOut r3 =>
+            if nOut > maxTxOutPerMessage then .err else
+            match sAlloc mem (nOut * txOutSize) with
+            | .ok _ _ =>
+              match sTxOuts mem (r3.length + 1) nOut r3 with
+              | .ok _ r4 =>
+                match sN 4 r4 with
+                | .ok _ r5 => .ok () r5
+                | _ => .need
+              | x => x
+            | .panicked => .panicked
+            | .oom => .oom
+            | _ => .err
+          | .need => .need
+          | _ => .err
+        | x => x
+      | .panicked => .panicked
+      | .oom => .oom
+      | _ => .err
+    | .need => .need
+    | _ => .err
+  | _ => .need
+
+/-- the transaction loop of `handleBlock`: `got` transactions handed to the handler so far. -/
+def blockLoop (mem : Nat) : Nat → Nat → Bytes → Nat → (Sd Unit × Nat)
+  | _, 0, b, got => (.ok () b, got)
+  | 0, _+1, _, got => (.need, got)
+  | fuel+1, remaining+1, b, got =>
+    match sTx mem b with
+    | .ok _ r => blockLoop mem fuel remaining r (got + 1)
+    | x => (x, got)
+
+/-- `handleBlock` (installed by `RequestBlock`), streaming: the block handler is started once the
+    transaction count is read and gets every transaction as it completes; `blockReader` is set as
+    soon as the 80-byte header matched the request. The handler (the harness' and the downloader's)
+    returns nil iff it got as many transactions as announced. A recovered makeslice panic leaves the
+    channel open: the handler never returns (`done` stays `none`). -/
 def hBlock (e : Env) (s : State) (L : Nat) (inp : Bytes) : HOut :=
   finish L inp.length <|
   match readN 80 inp with
@@ -584,18 +692,24 @@ def hBlock (e : Env) (s : State) (L : Nat) (inp : Bytes) : HOut :=
     | some want =>
       if want ≠ hash then { st := s, used := 80 }
       else if !s.blockHandler then { st := completeBlock s hash, used := 80 }
-      else if inp.length < L then { st := s, used := 80, res := .need }
       else
+        let s1 := { s with blockReader := true }
         match readVarInt r1 with
-        | .need => { st := s, used := 80, res := .need }
-        | .err => { st := completeBlock s hash, used := 80 + min (varIntWidth r1) r1.length, res := .err }
+        | .need => { st := s1, used := 80, res := .need }
+        | .err => { st := completeBlock s1 hash, used := 80 + min (varIntWidth r1) r1.length, res := .err }
         | .ok txCount r2 =>
-          let body := r2.take (L - (inp.length - r2.length))
-          match blockTxLoop e.mem (min txCount (body.length + 1)) body with
-          | .err => { st := completeBlock s hash, used := 80, res := .err }
+          let u2 := inp.length - r2.length
+          let run := blockLoop e.mem (r2.length + 1) txCount r2 0
+          let rec_ (got : Nat) (done : Option Bool) : BlockRec :=
+            { called := true, count := txCount, got := got, done := done }
+          match run.1 with
+          | .need => { st := { s1 with bh := rec_ run.2 none }, used := u2, res := .need }
+          | .err => { st := completeBlock { s1 with bh := rec_ run.2 (some false) } hash, used := u2, res := .err }
+          | .panicked => { st := completeBlock { s1 with bh := rec_ run.2 none } hash, used := u2, res := .err }
           | .oom => { st := s, res := .panic }
-          | .ok r3 =>
-            { st := completeBlock s hash, fx := [.updateScore], used := L - r3.length }
+          | .ok _ r3 =>
+            { st := completeBlock { s1 with bh := rec_ run.2 (some true) } hash, fx := [.updateScore],
+              used := inp.length - r3.length }
 
 def trimZeros (b : Bytes) : Bytes := (b.reverse.dropWhile (· == 0)).reverse
 
